@@ -97,7 +97,7 @@ def run(ctx):
     coll = O.Collector()
     for stage in (lambda: O.search_witnesses(ctx), lambda: O.correspond(ctx, facts, coll), lambda: O.search_finders(ctx), lambda: O.search_probes(ctx),
                   lambda: O.search_probes_general(ctx), lambda: O.search_probes_restricted(ctx),
-                  lambda: O.search_zero_points(ctx), lambda: O.search_api(ctx)):
+                  lambda: O.search_zero_points(ctx), lambda: O.search_explicit_mapping(ctx), lambda: O.search_api(ctx)):
         try:
             stage()
         except Exception as e:      # noqa: BLE001 - a crash of one stage must not hide what the others find
